@@ -40,6 +40,10 @@ def _exec_history(prog, keep_text=False):
             if fam not in shared:
                 shared[fam] = colordocs.new_shared_body(fam)
             objs[dd] = colordocs.build_pool_doc(dd, shared_body=shared[fam], tmpdir=tmp)
+        elif dd in colordocs.SHARED_SUBLINE:
+            if "subline" not in shared:
+                shared["subline"] = colordocs.new_shared_subline()
+            objs[dd] = colordocs.build_pool_doc(dd, tmpdir=tmp, shared_subline=shared["subline"])
         elif dd in colordocs.SHARED_PAGE:
             if "page" not in shared:
                 shared["page"] = colordocs.new_shared_page()
